@@ -48,6 +48,7 @@ def check(ctx):
   r6(ctx)
   from . import c12 as _c12
   _c12.observable_truthy(ctx, 'C01.R6')
+  _c12.timeout_only_from_timer(ctx, 'C01.R6')
   from . import c14 as _c14
   ctx.rule('C14.R2', 'shared with C14: the framed read loops advance by what was received and raise on an empty chunk (a peer that hangs up must surface as a fault; a loop that spins on b"" never yields and starves the hub, so no timer fires any more)')
   _c14.r2(ctx)
@@ -211,6 +212,60 @@ def r3(ctx):
         ok = False
     ctx.ob('C01.R3', g, 'Pop() on %s is guarded by Any()' % recv, ok and found, 'Pop() without a dominating Any() check on the same stack',
            why + ' (a timed-out waiter has a drained stack: an unguarded Pop raises IndexError and loses the connection)')
+  pop_discipline(ctx, 'C01.R3')
+
+
+def pop_discipline(ctx, rule):
+  """Frames on a call's sink stack are taken off by the stack's own response walk only; any other code that pops a frame puts one back in its place
+  (the pool swaps its queuing placeholder for the real connection).  Nobody discards frames."""
+  prog = ctx.prog
+  why = ('every hop that pushed itself is owed the completion: the balancer releases the member load, the pool takes its connection back, the timeout sink cancels its timer -- '
+         'all from their frame on the stack; a completion that skips frames (unwinds to its own) leaks load, connections and timers')
+  n = 0
+  for g in prog.all_funcs:
+    for c in walk_no_nested(g.node):
+      if not (isinstance(c, ast.Call) and isinstance(c.func, ast.Attribute) and c.func.attr == 'Pop' and not c.args and g.cls is not None):
+        continue
+      if g.qualname in ('SinkStack.Pop', 'ClientMessageSinkStack.AsyncProcessResponse'):
+        continue
+      n += 1
+      recv = U(c.func.value)
+      ok = True
+      for ev, ex in enum_paths(ctx, g):
+        idx = [i for i, e in enumerate(ev) if e.kind == 'call' and e.node is c]
+        if not idx:
+          continue
+        pushes = [i for i, e in enumerate(ev) if e.kind == 'call' and call_attr(e.node) == 'Push' and U(e.node.func.value) == recv and i > idx[0]]
+        if len(pushes) < len(idx):
+          ok = False
+      ctx.ob(rule, g, 'a frame popped outside the stack walk is replaced by a pushed one', ok,
+             '%s pops %s without pushing a frame back on every such path' % (g.qualname, recv), why)
+  return n
+
+
+def stream_only_without_message(ctx, rsp):
+  """AsyncProcessResponse(sink_stack, context, stream, msg) carries EITHER a reply stream or a ready-made message (timeouts, faults, fail-fast and
+  no-member errors are messages with stream None): the stream is looked into only where the message is known to be absent."""
+  if len(rsp.params) < 5:
+    return
+  stream, msg = rsp.params[3], rsp.params[4]
+  why = ('locally generated completions (TimeoutError from the timer, transport faults, FailedFastError) walk the same response path with stream = None: dereferencing the stream on '
+         'that path raises in the middle of the walk, the sinks above never see the completion and the call hangs')
+  for ev, ex in enum_paths(ctx, rsp):
+    for i, e in enumerate(ev):
+      if e.kind not in ('call', 'stmt', 'cond', 'ret'):
+        continue
+      deref = [x for x in ast.walk(e.node) if isinstance(x, ast.Attribute) and isinstance(x.value, ast.Name) and x.value.id == stream]
+      if e.kind == 'call' and not deref:
+        nm = call_attr(e.node) or ''
+        if nm not in ('AsyncProcessResponse', 'AsyncProcessResponseStream', 'AsyncProcessResponseMessage') and any(isinstance(a, ast.Name) and a.id == stream for a in e.node.args):
+          deref = [e.node]
+      if not deref or e.kind == 'stmt' and any(ev[j].kind == 'call' and any(x is d for d in deref for x in ast.walk(ev[j].node)) for j in range(max(0, i - 3), i)):
+        continue
+      fs = FACTS(ev[:i])
+      absent = (msg, False) in fs or ('not' + msg, True) in fs or ('%sisNone' % msg, True) in fs or (stream, True) in fs or ('%sisnotNone' % stream, True) in fs
+      ctx.ob('C01.R4', rsp, 'the reply stream is read only where no ready-made message was delivered', absent,
+             '%s is evaluated on a path that has not established that %s is absent (facts: %s)' % (U(deref[0])[:60], msg, sorted(c for c, t in fs if msg in c or stream in c)), why)
 
 
 def r45(ctx):
@@ -236,6 +291,7 @@ def r45(ctx):
                '%s pushes itself on the stack but its AsyncProcessResponse is raise/pass: the response chain stops there' % c.name, why4)
       else:
         n4 += check_response(ctx, sp, 'C01.R4', rsp, rsp.params[1], why4)
+        stream_only_without_message(ctx, rsp)
     if req is not None and not req.is_abstract:
       body = [s for s in req.node.body if not (isinstance(s, ast.Expr) and isinstance(s.value, ast.Constant))]
       if len(body) == 1 and isinstance(body[0], ast.Raise):
